@@ -13,6 +13,18 @@ SRC_NOTE = (
     "all inputs; trusted there: the translator and the run-time library Model/PyRt.lean. "
 )
 
+PARSE_NOTE = (
+    "Whole-component source tie: lean/Mathy/Gen/PySrcTokSt.lean and Gen/PySrcParse.lean are regenerated on every run from the live "
+    "mathy_core/tokenizer.py and parser.py by the stateful translators harness/py2lean_st.py and harness/py2lean_parse.py (every method of "
+    "Tokenizer; TokenSet, the token sets, next/eat/check/parse_*/_parse and the caching front parse/tokenize/clear_cache of ExpressionParser; "
+    "mutable objects as explicit state, raise as Except, loops and mutual recursion as fuel-indexed functions); Src_tokenize / Src_parse prove "
+    "that the model's tokenize / parseText compute what the translated source computes for EVERY string (fuel never exhausted, no "
+    "IndexError/KeyError escapes) and Src_history_independent that every answer of every call history on one parser object is the fresh "
+    "answer. Trusted there: the two translators, the run-time libraries Model/PyRtTok.lean / PyRtParse.lean, the external coerce_to_number "
+    "(= hand-written parseNumber); parser exception message texts are not modelled. The translated code is also executed against the real "
+    "parser on every text of the run. "
+)
+
 CHECKS = {
     "C01": {
         "text": "Theorems (lean/Mathy/Props/C01.lean) over the Lean model of all nine rules x options: any applicable rewrite at any position of any tree refines the value at every assignment (exact rationals, integer powers). Tied to the code by differential execution of every rule at every node of exhaustive small and random reachable trees, plus an exact-rational oracle on the real results.",
@@ -45,14 +57,14 @@ CHECKS.update({
     "C03": {
         "text": "Theorems: the parser model accepts exactly the token strings the documented grammar derives (soundness + completeness, hence unambiguity) and returns exactly the prescribed tree, for every token list, with the model's fuel proved sufficient. Tied to the code by comparing trees / error kinds of the real parser and the model on ALL strings of up to 5 (6) tokens, grammar-directed and malformed text, plus an independent evaluator written from the documented grammar run against the real parser.",
         "design_ref": "DESIGN.md 3/C03",
-        "note": COMMON_NOTE + SRC_NOTE + "Token level (characters are C11). The grammar relations build the implementation's grouping of '*'; its left-to-right VALUE is checked by the grammar oracle, not proved.",
-        "technique": "Lean 4 proof (parser soundness/completeness vs grammar relations) + exhaustive differential correspondence + grammar oracle",
+        "note": COMMON_NOTE + PARSE_NOTE + SRC_NOTE + "Token level (characters are C11). The grammar relations build the implementation's grouping of '*'; its left-to-right VALUE is checked by the grammar oracle, not proved.",
+        "technique": "Lean 4 proof (parser soundness/completeness vs grammar relations) + tokenizer and parser translated from source and proved equal to the model + exhaustive differential correspondence + grammar oracle",
     },
     "C04": {
         "text": "Theorem: for every printable tree (any shape, not only parser outputs) the printed token list is accepted by the parser and the re-parsed tree evaluates identically at every assignment and has the same variables (via parser completeness). Correspondence: real str(tree) tokenized vs model printer tokens, real re-parse vs model, exact evaluation, on all small trees and on every rewrite result.",
         "design_ref": "DESIGN.md 3/C04",
-        "note": COMMON_NOTE + SRC_NOTE + "Token level; number formatter is a parameter with a round-trip hypothesis; right-nested equation chains: value agreement only (see theorems.json partial).",
-        "technique": "Lean 4 proof (print/parse round trip through the grammar) + differential correspondence + re-parse oracle",
+        "note": COMMON_NOTE + PARSE_NOTE + "Printer: Gen/PySrcStr.lean is regenerated from the live __str__ methods (template-checked) and Src_str proves the model equal to it; Src_print_parse_roundtrip is the round trip for the translated printer + tokenizer + parser. " + SRC_NOTE + "Token level; number formatter is a parameter with a round-trip hypothesis; right-nested equation chains: value agreement only (see theorems.json partial).",
+        "technique": "Lean 4 proof (print/parse round trip through the grammar; printer, tokenizer and parser translated from source and proved equal to the model) + differential correspondence + re-parse oracle",
     },
     "C05": {
         "text": "Model pyEval of evaluate() with Python's int/float typing; theorems: exactness on the integer fragment at any magnitude, unbound variables are errors, division by zero is NaN and propagates, equations return the common value or raise. Correspondence: real evaluate() vs model on integer trees with operands up to 10^40 / exponents up to 200 / factorials up to 60 (exact) and mixed trees (few ulps).",
@@ -69,20 +81,20 @@ CHECKS.update({
     "C10": {
         "text": "Theorems: the parser model is total with a closed outcome type, never runs out of its fuel, reports exactly the first unsupported character, and a long-lived parser answers like a fresh one after any history (failing parses included). Correspondence of error KINDS with the real exception classes on all short token strings, malformed streams, histories; link audit of returned trees; deep-input probes.",
         "design_ref": "DESIGN.md 3/C10",
-        "note": COMMON_NOTE + "RecursionError is interpreter behaviour outside the model: probes only; one open known finding (flat product of ~1000 factors).",
-        "technique": "Lean 4 proof (totality, fuel sufficiency, history independence) + exhaustive differential correspondence + deep probes",
+        "note": COMMON_NOTE + PARSE_NOTE + "RecursionError is interpreter behaviour outside the model: probes only; one open known finding (flat product of ~1000 factors).",
+        "technique": "Lean 4 proof (totality, fuel sufficiency, history independence) + tokenizer, parser and parser caches translated from source and proved equal to the model + exhaustive differential correspondence + deep probes",
     },
     "C11": {
         "text": "Theorems over the tokenizer model for ALL strings and both padding modes: lossless up to the three normalisations, exactly one end marker, padding mode only filters pad tokens, error iff (first) unsupported character, maximal-munch equations for digit/dot runs, letter runs (function name only if the WHOLE run matches) and single-character operators. Exhaustive correspondence on all strings of up to 4 (5) symbols over a 25-symbol alphabet.",
         "design_ref": "DESIGN.md 3/C11",
-        "note": COMMON_NOTE + SRC_NOTE,
-        "technique": "Lean 4 proof over tokenizer model + exhaustive differential correspondence + losslessness oracle",
+        "note": COMMON_NOTE + PARSE_NOTE + SRC_NOTE,
+        "technique": "Lean 4 proof over tokenizer model + whole tokenizer translated from source and proved equal to the model + exhaustive differential correspondence + losslessness oracle",
     },
     "C12": {
         "text": "Theorem: in the state-machine model of the parser object (two caches, token lists as heap cells handed out by reference, client pops) every answer of every history equals the fresh answer. Exhaustive histories of length <= 3 (4) over parse/tokenize/clear/pop on the real parser vs a fresh parser and vs the model.",
         "design_ref": "DESIGN.md 3/C12",
-        "note": COMMON_NOTE,
-        "technique": "Lean 4 proof (invariant over op histories, refinement to stateless spec) + exhaustive history correspondence",
+        "note": COMMON_NOTE + PARSE_NOTE,
+        "technique": "Lean 4 proof (invariant over op histories, refinement to stateless spec; history independence of the parser object translated from source) + exhaustive history correspondence",
     },
     "C13": {
         "text": "Theorems on the functional model: a clone has the same structure/payloads, only new identities, evaluates and prints identically; cloning from the root through the node at position i yields the copy at the same position inside a complete copy. Object-level oracle on the real code: signatures (ids, sides, flags), no shared object, independence under edits, both call styles of clone_from_root, generic BinaryTreeNode shapes.",
